@@ -17,7 +17,7 @@ import ast
 import hashlib
 
 from ..ctor import init_attrs
-from ..facts import atoms, call_is, equality_atoms, meth_is, slice_bounds, strip
+from ..facts import simplify, atoms, call_is, equality_atoms, meth_is, slice_bounds, strip
 from ..model import AnalysisError, norm
 from ..terms import is_const, show, subterms, summarize
 
@@ -101,7 +101,11 @@ def run(ctx):
            fail=f"name is read as `{show(name)[:120]}`")
     ty = strip(info.get("device_type", ("top", "missing")))
     ty_ok = call_is(ty, "int") and len(ty[2]) == 2 and ty[2][1] == ("const", 16) and strip(ty[2][0])[0] == "sub" and strip(ty[2][0])[2] == ("const", 1) \
-        and meth_is(strip(strip(ty[2][0])[1]), "split") and strip(strip(ty[2][0])[1])[2] == (("const", "_"),) and strip(strip(strip(ty[2][0])[1])[1][1]) == name
+        and meth_is(strip(strip(ty[2][0])[1]), "split") and strip(strip(strip(ty[2][0])[1])[1][1]) == name \
+        and (strip(strip(ty[2][0])[1])[2] == (("const", "_"),) or
+             # a split limit of two or more leaves element 1 unchanged
+             (len(strip(strip(ty[2][0])[1])[2]) == 2 and strip(strip(ty[2][0])[1])[2][0] == ("const", "_") and is_const(strip(strip(ty[2][0])[1])[2][1])
+              and isinstance(strip(strip(ty[2][0])[1])[2][1][1], int) and (strip(strip(ty[2][0])[1])[2][1][1] >= 2 or strip(strip(ty[2][0])[1])[2][1][1] == -1)))
     ctx.ob("C17.a", gi.qual, ty_ok, "appliance type = int(name.split('_')[1], 16)", func=gi.qual, file=file, construct="device_type", detail={"term": show(ty)[:160]},
            fail=f"appliance type is read as `{show(ty)[:120]}`")
     # ---- provenance of ip / version
@@ -116,7 +120,9 @@ def run(ctx):
     # ---- datagram_received hands over addr[0] and the detected version
     dg = ctx.fn(f"{DP}.datagram_received")
     dgs = summarize(prog, dg)
-    calls = [t2 for n2, t2 in dgs.ta.terms_at.items() if isinstance(n2, ast.Call) and call_is(t2, f"{DISC}._get_device")]
+    from ..helpers import term_lookup, with_helpers
+    dtl = term_lookup(prog, dg)
+    calls = [dtl(n2) for f2 in with_helpers(prog, dg) for n2 in ast.walk(f2.node) if isinstance(n2, ast.Call) and dtl(n2) is not None and call_is(dtl(n2), f"{DISC}._get_device")]
     okc = False
     for c in calls:
         a = c[2]
@@ -182,7 +188,21 @@ def run(ctx):
     dpv = gv.params[-1]
     seen = {}
     for pc2, t2, n2, _st in gvs.returns:
-        if n2 is None or not is_const(t2):
+        if n2 is None:
+            continue
+        ts2 = strip(t2)
+        if ts2[0] == "item" and ts2[2] == 1 and ts2[1][0] == "iter" and is_const(strip(ts2[1][1])):
+            # table-driven: for marker, version in <constant table>: if data[:2] == marker: return version
+            table = strip(ts2[1][1])[1]
+            key = ("item", ts2[1], 0)
+            cmp_ok = any(strip(x)[0] == "slice" and strip(strip(x)[1]) == ("param", dpv) and strip(x)[2] is None and strip(x)[3] == ("const", 2) and strip(y) == key
+                         for a, b in equality_atoms(atoms(pc2)) for x, y in ((a, b), (b, a)))
+            if cmp_ok and isinstance(table, (tuple, list)) and all(isinstance(r, (tuple, list)) and len(r) == 2 for r in table) \
+                    and len({r[0] for r in table}) == len(table):
+                for marker, ver in table:
+                    seen[ver] = marker
+            continue
+        if not is_const(t2):
             continue
         facts = atoms(pc2)
         mk = None
@@ -202,18 +222,17 @@ def run(ctx):
     gc = ctx.fn(f"{DISC}._get_device_class")
     gcs = summarize(prog, gc)
     tp = gc.params[-1]
+    # the class as one gated term; its value with `type == 0xAC` assumed / refuted (statement and expression forms alike)
+    rt = gcs.return_term()
+    tests = [x for x in subterms(rt) if x[0] == "cmp" and x[1] in ("==", "!=") and {strip(x[2])[0], strip(x[3])[0]} == {"param", "enum"}
+             and any(y[0] == "enum" and y[3] == 0xAC for y in (strip(x[2]), strip(x[3])))]
     ac_ret = dev_ret = False
-    for pc2, t2, n2, _st in gcs.returns:
-        if n2 is None:
-            continue
-        facts = atoms(pc2)
-        eq_ac = any(f[0] == "cmp" and f[1] == "==" and {strip(f[2])[0], strip(f[3])[0]} == {"param", "enum"} and
-                    any(x[0] == "enum" and x[3] == 0xAC for x in (strip(f[2]), strip(f[3]))) for f in facts)
-        ne_ac = any(f[0] == "cmp" and f[1] == "!=" and any(x[0] == "enum" and x[3] == 0xAC for x in (strip(f[2]), strip(f[3]))) for f in facts)
-        if t2 == ("global", AC):
-            ac_ret = eq_ac
-        elif t2 == ("global", DEV):
-            dev_ret = ne_ac
+    if tests:
+        t0 = tests[0]
+        eq = ("cmp", "==", t0[2], t0[3])
+        ne = ("cmp", "!=", t0[2], t0[3])
+        ac_ret = strip(simplify(rt, [eq])) == ("global", AC)
+        dev_ret = strip(simplify(rt, [ne])) == ("global", DEV)
     ctx.ob("C17.c", gc.qual, ac_ret and dev_ret, "AirConditioner exactly for type 0xAC, generic Device otherwise", func=gc.qual, file=file, construct="class mapping",
            fail="appliance type -> device class mapping changed")
     # ---------------------------------------------------------------- C17.d
@@ -226,10 +245,17 @@ def run(ctx):
     sd = ctx.fn(f"{DP}._send_discovery")
     sds = summarize(prog, sd)
     ports = None
-    for n2 in ast.walk(sd.node):
-        if isinstance(n2, ast.For) and isinstance(n2.target, ast.Name) and n2.target.id == "port":
-            ports = prog.fold_or_none(n2.iter, sd.module)
     sends = [t2 for n2, t2 in sds.ta.terms_at.items() if isinstance(n2, ast.Call) and meth_is(t2, "sendto")]
+    # the port of the sendto address iterates over a constant collection (any container type, named or literal)
+    for c in sends:
+        adr = strip(c[2][1]) if len(c[2]) > 1 else None
+        pt = strip(adr[1][1]) if adr is not None and adr[0] == "tuple" and len(adr[1]) == 2 else None
+        if pt is not None and pt[0] == "iter":
+            src = strip(pt[1])
+            if is_const(src) and isinstance(src[1], (list, tuple, set, frozenset)):
+                ports = sorted(src[1])
+            elif src[0] in ("list", "tuple", "set") and all(is_const(x) for x in src[1]):
+                ports = sorted(x[1] for x in src[1])
     s_ok = bool(sends) and all(c[2][0] == ("const", msg) and strip(c[2][1])[0] == "tuple" and strip(strip(c[2][1])[1][0]) == ("attr", ("param", sd.params[0]), "_target") for c in sends)
     ctx.ob("C17.d", sd.qual, ports == [6445, 20086] and s_ok, "the probe is sent to the target on ports 6445 and 20086", func=sd.qual, file=file, construct="_send_discovery",
            detail={"ports": ports}, fail=f"the probe is sent to ports {ports} / with another payload or target")
